@@ -141,6 +141,9 @@ def order_rules(ctx):
         for i, st in agg_assigns(nb, adt):
             sl = origins(nb, st["rv"]["ops"][st["rv"]["fields"].index(fld)])
             srcs = {x.name for x in sl.calls if x.name in ("acmed::config::Certificate::get_hooks", "acmed::config::Account::get_hooks")}
+            if nb.blocks[i].get("inl") and not srcs and {x.name.rsplit("::", 1)[-1] for x in sl.calls} <= {"new", "default", "with_capacity"}:
+                # a template value built by a new helper (`FileManager { hooks: Vec::new(), .. }` used as `..base` of the real literals)
+                continue
             ctx.require(R3, len(srcs) == 1, where(nb, i), "%s.hooks derives from one get_hooks() result (%s)" % (adt.rsplit("::", 1)[1], sorted(srcs)), [MEL, "hooks-source", adt.rsplit("::", 1)[1]])
             bad = [v for v in shrinkers_in(sl) if not v.endswith("::filter")] + [v for v in sl.via if v.rsplit("::", 1)[-1] in ("partition", "partition_in_place", "unzip")]
             ctx.require(R3, not bad, where(nb, i), "%s.hooks: the list is only filtered, never split/reordered (%s)" % (adt.rsplit("::", 1)[1], bad), [MEL, "hooks-shrunk", adt.rsplit("::", 1)[1]])
@@ -332,7 +335,7 @@ def template_rules(ctx):
     ctx.require(R7, "rev_labels" in names, "%s:%s" % (rtb.file, rtb.line), "the documented rev_labels filter is registered (%s)" % names, ["template::render_template", "rev_labels"])
     ge = [prog.body(k) for k, b in prog.bodies.items() if k.endswith("as acmed::hooks::HookEnvData>::get_env")]
     for b in ge:
-        sl = origins(b, {"l": 0, "p": []})
+        sl = origins(b, {"l": 0, "p": []}, through=True)
         own = any(f == "env" for a, f in sl.fields) or (sl.has_leaf("param:1") and not sl.has_leaf("param:2") and (sl.via_any("std::collections::hash::map::HashMap::iter") or any(x.is_("std::collections::hash::map::HashMap::iter") for x in sl.calls)))
         ctx.require(R7, own, "%s:%s" % (b.file, b.line), "%s iterates the data's own env map" % short(b.key), [short(b.key), "get_env"])
 
